@@ -71,13 +71,13 @@ def handleSpec (env : HEnv σ ρ η (Gen.Ctx γ)) (g : Gen.Router) (ctx : Gen.Ct
     | none => b
   else b
 
-theorem gen_handle_eq_spec (env : HEnv σ ρ η (Gen.Ctx γ)) (g : Gen.Router) (ctx : Gen.Ctx γ) (s : σ) :
-    Gen.Router.handleHTTPRequest g ctx env s = handleSpec env g ctx s := by
-  unfold Gen.Router.handleHTTPRequest handleSpec bodySpec
-  simp only [Id.run, GoRt.idPure, GoRt.idBind, bind, pure, ToDV.toDV, chainFor, preludeCtx, commit,
-    keyRouteName, keyRoutePath, keyAllowed, keyRecover, List.nil_append]
-  trace_state
-  sorry
+/-
+  OPEN: `Gen.Router.handleHTTPRequest g ctx env s = handleSpec env g ctx s`.
+  The statement is true by inspection of the two definitions, but the obvious proof (unfold, zeta-reduce, case
+  analysis) does not terminate in reasonable time: after zeta-reduction every structure update on the context copies
+  the preceding tuple-valued block into each field.  Until a let-preserving proof is written the generated
+  definition is tied by the snapshot theorem of Tie/Golden.lean only.
+-/
 
 end Tie
 end Rux
